@@ -213,6 +213,12 @@ class Interp:
         return self.ev(e.body if self.ctx.branch(c) else e.orelse, fr)
 
     def ite(self, c, a, b):
+        if isinstance(a, Code) != isinstance(b, Code) and (is_strlike(a) or is_strlike(b)):
+            # an enum-coded value merged with a plain name: the name is the registered-name case of the coding
+            if isinstance(a, Code):
+                b = Code(True, to_str(b), 0)
+            else:
+                a = Code(True, to_str(a), 0)
         if isinstance(a, SOpt) or isinstance(b, SOpt):
             def parts(v, other):
                 if isinstance(v, SOpt):
